@@ -54,6 +54,29 @@ Lemma search_forward_some : forall buf start c s e,
   start <= e /\ e + List.length (c :: s) <= List.length buf.
 Proof. intros. eapply search_forward_n_some; eauto. Qed.
 
+Lemma bom_at_bytewise_inside : forall buf j, bom_at_bytewise buf j = true -> j + 3 <= List.length buf.
+Proof.
+  intros buf j H. unfold bom_at_bytewise, bom in H. apply is_string_at_cons_le in H.
+  cbn [List.length] in H. exact H.
+Qed.
+
+Lemma bom_at_runewise_old_inside : forall buf j,
+  bom_at_runewise_old buf j = true -> j + 3 <= List.length buf.
+Proof.
+  intros buf j H. unfold bom_at_runewise_old in H. apply andb_true_iff in H. destruct H as [H _].
+  apply Nat.leb_le in H. exact H.
+Qed.
+
+(** the only fact about the byte-order-mark test that the totality proofs use *)
+Lemma bom_at_inside : forall buf j, bom_at buf j = true -> j + 3 <= List.length buf.
+Proof. exact bom_at_bytewise_inside. Qed.
+
+(** the rune-wise test of commit 0061363 accepted three bytes that are not a byte order mark:
+    quote, U+FF71 (EF BD B1), quote *)
+Theorem bom_test_runewise_old_refuted :
+  exists buf j, bom_at_runewise_old buf j = true /\ is_string_at buf j bom = false.
+Proof. exists [34; 239; 189; 177; 34], 1. split; reflexivity. Qed.
+
 (* ------------------------------------------------------------------ scanSpaceToken *)
 
 Lemma skip_char_ok : forall fuel buf j ch,
@@ -245,7 +268,14 @@ Proof.
       destruct (scan_string_loop f buf pos (S i) acc'); cbn in *; auto.
       destruct Hr as (Ht & Hb & Hi & _ & Hl).
       split; [exact Ht|]. split; [exact Hb|]. split; [lia|]. split; [intros _; lia|lia]. }
-    destruct (c =? 10); apply Hstep.
+    destruct (c =? 10); [apply Hstep|].
+    destruct (bom_at buf (pos + i)) eqn:Eb; [|apply Hstep].
+    apply bom_at_inside in Eb.
+    assert (Hr : loop_tok_ok buf STRING pos (S (S (S i))) true
+                   (scan_string_loop f buf pos (S (S (S i))) (bom_escape_rev ++ acc))) by (apply IH; lia).
+    destruct (scan_string_loop f buf pos (S (S (S i))) (bom_escape_rev ++ acc)); cbn in *; auto.
+    destruct Hr as (Ht & Hb & Hi & _ & Hl).
+    split; [exact Ht|]. split; [exact Hb|]. split; [lia|]. split; [intros _; lia|lia].
 Qed.
 
 Lemma scan_raw_loop_ok : forall fuel buf pos i acc,
@@ -269,7 +299,14 @@ Proof.
   { tok_done. }
   destruct (c =? 92); [apply Hstep|].
   destruct (c =? 34); [apply Hstep|].
-  destruct (c =? 10); apply Hstep.
+  destruct (c =? 10); [apply Hstep|].
+  destruct (bom_at buf (pos + i)) eqn:Eb; [|apply Hstep].
+  apply bom_at_inside in Eb.
+  assert (Hr : loop_tok_ok buf STRING pos (S (S (S i))) true
+                 (scan_raw_loop f buf pos (S (S (S i))) (bom_escape_rev ++ acc))) by (apply IH; lia).
+  destruct (scan_raw_loop f buf pos (S (S (S i))) (bom_escape_rev ++ acc)); cbn in *; auto.
+  destruct Hr as (Ht & Hb & Hi & _ & Hl).
+  split; [exact Ht|]. split; [exact Hb|]. split; [lia|]. split; [intros _; lia|lia].
 Qed.
 
 (* ------------------------------------------------------------------ scanTokenAt *)
